@@ -204,6 +204,35 @@ def _ax_mul(t):
     return out
 
 
+# optional schema families, switched on per contract (options = {'schemas': [...]})
+EXTRA = set()
+
+
+def _mul_parts(t):
+    for x, pk in ((t.arg(0), t.arg(1)), (t.arg(1), t.arg(0))):
+        if is_app_of(pk, pow2):
+            return x, pk.arg(0)
+    return None
+
+
+def _ax_mm(t1, t2):
+    """
+    MM (option 'MM'): two products a*2^j, b*2^k compare like a and b*2^(k-j) when 0 <= j <= k:
+      a*2^j < b*2^k  <->  a < b*2^(k-j)   (same for > and ==)
+    """
+    out = []
+    p1, p2_ = _mul_parts(t1), _mul_parts(t2)
+    if p1 is None or p2_ is None:
+        return out
+    for (ta, (a, j), tb, (b, k)) in ((t1, p1, t2, p2_), (t2, p2_, t1, p1)):
+        d = pow2(z3.simplify(k - j))
+        g = z3.And(j >= 0, j <= k)
+        out.append(('MM.lt', z3.Implies(g, (ta < tb) == (a < b * d))))
+        out.append(('MM.gt', z3.Implies(g, (tb < ta) == (b * d < a))))
+        out.append(('MM.eq', z3.Implies(g, (ta == tb) == (a == b * d))))
+    return out
+
+
 def _ax_ipow(t):
     b_, e_ = t.arg(0), t.arg(1)
     return [('IP.zero', z3.Implies(e_ == 0, t == 1)),
@@ -284,6 +313,21 @@ def instantiate(formulas, rounds: int = 2, heavy: bool = True):
             for f_ in work + axioms:
                 for i, t in _MULS.get(f_.get_id(), {}).items():
                     emit(('mul', i), lambda t=t: _ax_mul(t))
+        if 'MM' in EXTRA and not last:
+            # products with a power of two: those of the query plus q*2^k of every exact-division definition
+            ml = {}
+            for f_ in work:
+                ml.update(_MULS.get(f_.get_id(), {}))
+            for i, t in sorted(dms.items()):
+                if is_app_of(t.arg(1), pow2):
+                    qd = (t.arg(0) / t.arg(1)) * t.arg(1)
+                    _KEEP.append(qd)
+                    ml[qd.get_id()] = qd
+            mll = sorted(ml.items())
+            for x in range(len(mll)):
+                for y in range(x + 1, len(mll)):
+                    (i, t1), (j, t2) = mll[x], mll[y]
+                    emit(('mm', i, j), lambda t1=t1, t2=t2: _ax_mm(t1, t2))
     return axioms, names
 
 
@@ -348,6 +392,12 @@ def selftest_schemas(limit: int = 40) -> dict:
                     bad['DD.nest'] = (x, a, b)
                 if (x // P(a)) % P(b - a) != (x % P(b)) // P(a):
                     bad['DD.mod'] = (x, a, b)
+        for b in range(0, 12):
+            for j in range(0, 5):
+                for k in range(j, 7):
+                    if ((x * P(j) < b * P(k)) != (x < b * P(k - j)) or (b * P(k) < x * P(j)) != (b * P(k - j) < x)
+                            or (x * P(j) == b * P(k)) != (x == b * P(k - j))):
+                        bad['MM'] = (x, j, b, k)
         if BL(x + 1) > BL(x) and x + 1 != P(BL(x)):
             bad['S7'] = (x,)
         if BL(x + 1) > BL(x) + 1:
